@@ -50,13 +50,19 @@ Record pobs := {
   po_unit : str;
   po_uninit : bool;
   po_probes : list (pyval * res pyval);   (* datatype.validate(probe) on the instance *)
+  po_shape : list Z;                      (* length / character-set properties of the instance datatype (dt_shape) *)
 }.
 
 Inductive mobs :=
 | OCreated (ps : list pobs) (mv : list (str * pyval)) (w : list (str * pyval)) (names : list (str * str)) (tr : list ev)
 | ORejected (es : list err)
 | OCrashed.
-Inductive nobs := OLoadFailed | OLoaded (ms : list (str * mobs)) (registered : list str) (started : bool).
+(* orders: for every module section of the merged configuration the keys of each Param dict in dict order, as
+   Module._add_accessible will walk them *)
+Definition korders := list (str * list (str * list str)).
+Inductive nobs :=
+| OLoadFailed
+| OLoaded (ms : list (str * mobs)) (registered : list str) (started : bool) (orders : korders).
 
 Record case := { c_classes : list cls; c_files : list file; c_obs : nobs }.
 
@@ -69,6 +75,22 @@ Definition leaf_limits (d : dtype) : option (pyval * pyval) :=
   end.
 Definition dt_limits (d : dtype) : option (pyval * pyval) :=
   match d with TArray e _ _ => leaf_limits e | _ => leaf_limits d end.
+
+(* the properties of a datatype that decide which values datatype(value) accepts *)
+Fixpoint dt_shape (d : dtype) : list Z :=
+  match d with
+  | TString a b u8 => [a; b; if u8 then 1 else 0]%Z
+  | TBlob a b => [a; b]
+  | TArray e a b => a :: b :: dt_shape e
+  | _ => []
+  end.
+
+Definition cfg_orders (secs : list (str * section)) : korders :=
+  map (fun ns => (fst ns, flat_map (fun kc => match snd kc with CDict e => [(fst kc, map fst e)] | CRaw _ => [] end)
+                                   (snd (snd ns)))) secs.
+Definition order_eqb (a b : str * list (str * list str)) : bool :=
+  str_eqb (fst a) (fst b) &&
+  list_eqb (fun x y => str_eqb (fst x) (fst y) && list_eqb str_eqb (snd x) (snd y)) (snd a) (snd b).
 
 Definition expo_name (x : expo) : option str := match x with XName s => Some s | _ => None end.
 
@@ -86,6 +108,7 @@ Definition param_ok (p : param) (o : pobs) : bool :=
           opt_eqb (pair_eqb pv_same pv_same) (dt_limits d) (po_limits o)
           && str_eqb (if carries_unit d then p_unit p else []) (po_unit o)
           && forallb (fun pr => res_same (valid d (fst pr)) (snd pr)) (po_probes o)
+          && list_eqb Z.eqb (dt_shape d) (po_shape o)
       | None => false
       end)
   && (p_iscmd p || Bool.eqb (p_uninit p) (po_uninit o)).
@@ -109,10 +132,14 @@ Definition mod_ok (m : outcome) (o : mobs) : bool :=
 Definition check_case (c : case) : bool :=
   match node_run (c_classes c) (c_files c), c_obs c with
   | LoadFailed, OLoadFailed => true
-  | Loaded rs, OLoaded ms reg started =>
+  | Loaded rs, OLoaded ms reg started orders =>
       all2 (fun r o => str_eqb (fst r) (fst o) && mod_ok (snd r) (snd o)) rs ms
       && strl_eqb (registered rs) reg
       && Bool.eqb (node_starts rs) started
+      && match load_config (c_files c) with
+         | Some secs => list_eqb order_eqb (cfg_orders secs) orders
+         | None => false
+         end
   | _, _ => false
   end.
 
@@ -131,10 +158,15 @@ Definition mod_sum (m : outcome) (o : option mobs) : msum :=
   | Rejected es, _ => SRejected es
   | Crashed, _ => SCrashed
   end.
-Definition model_result (c : case) : option (list (str * msum)) :=
+(* first component: the key orders of the Param dicts agree with the model of config.Param / Mod *)
+Definition model_result (c : case) : option (bool * list (str * msum)) :=
   match node_run (c_classes c) (c_files c) with
   | LoadFailed => None
   | Loaded rs =>
-      Some (map (fun r => (fst r, mod_sum (snd r)
-                   match c_obs c with OLoaded ms _ _ => assoc_str (fst r) ms | _ => None end)) rs)
+      Some (match load_config (c_files c), c_obs c with
+            | Some secs, OLoaded _ _ _ orders => list_eqb order_eqb (cfg_orders secs) orders
+            | _, _ => false
+            end,
+            map (fun r => (fst r, mod_sum (snd r)
+                   match c_obs c with OLoaded ms _ _ _ => assoc_str (fst r) ms | _ => None end)) rs)
   end.
